@@ -338,6 +338,14 @@ class StrAbs:
                     optional = bool(gen.ifs)
                     rep = Lang([(("rep", elt, sep),)])
                     return (rep | Lang([()])) if optional else rep
+                if isinstance(g, (ast.Tuple, ast.List)) and not any(isinstance(x, ast.Starred) for x in g.elts):
+                    # join over a literal sequence: plain concatenation with the separator in between
+                    out = Lang([()])
+                    for i, x in enumerate(g.elts):
+                        if i:
+                            out = out + Lang.lit(sep)
+                        out = out + self.expr(fi, x, env, at)
+                    return out
                 raise AnalysisError(f"{fi.qual}: join over {type(g).__name__}")
             # package string function
             for cs in self.r.callsites(fi.qual):
@@ -362,6 +370,12 @@ class StrAbs:
     def charmap(self, fi: FuncInfo, g: Any, env: Dict[str, Lang], at: Dict[str, str]) -> Lang:
         gen = g.generators[0]
         src = gen.iter
+        if isinstance(src, ast.Name):
+            # a local that names str(x)
+            ds = [n.value for n in ast.walk(fi.node) if isinstance(n, ast.Assign) and len(n.targets) == 1
+                  and isinstance(n.targets[0], ast.Name) and n.targets[0].id == src.id]
+            if len(ds) == 1:
+                src = ds[0]
         if not (isinstance(src, ast.Call) and ast.unparse(src.func) == "str" and len(src.args) == 1):
             raise AnalysisError(f"{fi.qual}: character map over something other than str(x)")
         if not (isinstance(g.elt, ast.Subscript) and ast.unparse(g.elt.value) == "SUPERSCRIPTS"):
